@@ -24,7 +24,7 @@ pub fn hook(gn: &mut Gen, w: &mut World) -> Option<Step> {
             if !w.is_active_member(node, g) {
                 return None;
             }
-            let mode = gn.rng().below(5) as u8;
+            let mode = gn.rng().below(6) as u8;
             let others: Vec<EvRef> = w.ledger.iter().filter(|l| l.g == g && l.author != node).map(|l| l.origin).collect();
             let vm = if others.is_empty() { None } else { Some(others[gn.rng().below(others.len() as u64) as usize]) };
             let mut victim = vm.and_then(|r| w.ledger.iter().find(|l| l.origin == r)).map(|l| l.author).unwrap_or(victim);
